@@ -35,6 +35,7 @@ type PipeGenOpts struct {
 	Volume      bool // one worker, several hundred datagrams, a slow consumer: more than a megabyte of output waits in or has passed through one worker's hands
 	MidPolls    bool // stats API read in the middle of phases as well
 	SockLoss    bool // tiny socket receive queue: bursts lose datagrams before the collector reads them
+	LongGap     int  // seconds of silence between the first phase (announcements) and the later ones
 	Dyn         bool // dynamic workers: load peak, long idle period (scale-down), then traffic again
 	Hostile     bool // add hostile exporters (structurally hostile and byte-corrupted datagrams) and liveness probes
 }
@@ -560,6 +561,12 @@ func genPipePlan(seed int64, o PipeGenOpts) *PipePlan {
 				p.Dels[i].AbsUs = 2070*1000000 + int64([]int{0, 0, 0, 1, 2, 4}[r.Intn(6)])*200000
 				p.Dels[i].AtUs = 0
 			}
+			// network duplicates travel with their originals
+			for i := range p.Dels {
+				if o := p.Dels[i].DupOf; o > 0 && o-1 < n && p.Dels[o-1].Phase == 2 && p.Dels[o-1].AbsUs > 0 {
+					p.Dels[i].Phase, p.Dels[i].AbsUs, p.Dels[i].AtUs = 2, p.Dels[o-1].AbsUs, 0
+				}
+			}
 			// and a second copy of it in the same instants, so that several
 			// datagrams are in flight at once
 			for _, i := range ph1 {
@@ -569,6 +576,15 @@ func genPipePlan(seed int64, o PipeGenOpts) *PipePlan {
 			}
 			nPhases = 3
 			p.NPhases = 3
+		}
+	}
+	if o.LongGap > 0 && !o.Dyn {
+		// hours or days pass between the announcements and the data
+		for i := range p.Dels {
+			if p.Dels[i].Phase >= 1 {
+				p.Dels[i].AbsUs = int64(o.LongGap)*1000000 + int64(p.Dels[i].Phase)*5000000 + int64(p.Dels[i].AtUs)
+				p.Dels[i].AtUs = 0
+			}
 		}
 	}
 	if o.Volume && !o.Dyn {
@@ -590,6 +606,13 @@ func genPipePlan(seed int64, o PipeGenOpts) *PipePlan {
 			}
 		}
 		total := 500 + r.Intn(350)
+		if o.Mirror {
+			// the mirror's socket is slow: its queues (a thousand datagrams deep) fill up
+			total = 1200 + r.Intn(700)
+			p.Cfg.RawSendDelayUs = []int{300, 1000, 5000}[r.Intn(3)]
+			p.Cfg.TapDelayUs = 0
+			p.Cfg.CapMirror = []int{1, 16, 1000, 3000}[r.Intn(4)]
+		}
 		for n := 0; len(src) > 0 && n < total; n++ {
 			d := p.Dels[src[n%len(src)]]
 			d.AtUs = r.Intn(20000)
@@ -888,8 +911,12 @@ func shrinkPipe(planJSON []byte) [][]byte {
 		}
 		return false
 	})
-	// drop sets / records inside flow messages
+	// drop sets / records inside flow messages (not for plans of hundreds of
+	// deliveries: one candidate per delivery, each megabytes of JSON)
 	for i := range p.Dels {
+		if n > 120 {
+			break
+		}
 		if p.Dels[i].Abs == nil {
 			continue
 		}
